@@ -164,6 +164,7 @@ func (s *Stump) add(adds []Hash) ([]Hash, []uint64, []uint64) {
 		// a '1'. If there is a '1', we'll hash the root being added with that root
 		// until we hit a '0'.
 		newRoot := add
+		updatedNodes[add] = pos
 		for h := uint8(0); (s.NumLeaves>>h)&1 == 1; h++ {
 			root := s.Roots[len(s.Roots)-1]
 			s.Roots = s.Roots[:len(s.Roots)-1]
